@@ -427,6 +427,8 @@ theorem pidLeafX : LeafX PidInv where
   setStopping := by unfold setStopping; pid_frame_tac
   setRestarting := by unfold setRestarting; pid_frame_tac
   setLoopStop := fun b => by unfold setLoopStop; pid_frame_tac
+  setSocketEvent := fun b => by unfold setSocketEvent; pid_frame_tac
+  setSockReady := fun b => by unfold setSockReady; pid_frame_tac
   clearDone := by unfold clearDone; pid_frame_tac
   unregister := fun u => by unfold unregisterWatcher; pid_frame_tac
   registerNew := pid_registerNew
